@@ -225,3 +225,132 @@ Example c08_metrics_nonvacuous :
   dasgupta_cost true 5 G D false = Ok (89 # 7)%Q /\ (dasgupta_spec true 5 G D == 89 # 7)%Q /\
   dasgupta_score false 5 G D = Ok (3 # 35)%Q.
 Proof. vm_compute. repeat split; reflexivity. Qed.
+
+(** 7. Tree sampling divergence: bounds over the REAL numbers (Proofs/TsdReal.v; this supersedes the remark
+    after [dasgupta_score_in_unit_interval]: the bounds are proved for the formula, and still checked at run
+    time on the floating-point implementation).
+
+    The theorems of this part — and only these — use the standard library of real numbers, hence its axioms
+    (ClassicalDedekindReals.sig_not_dec, sig_forall_dec, functional_extensionality_dep, Classical_Prop.classic).
+
+    Vocabulary.  A finite pair of distributions is a list of pairs (a_i, b_i) of reals; [mass1] / [mass2] are the
+    sums of the a_i / b_i; [okpair (a, b)]: 0 <= a, 0 <= b, and 0 < a -> 0 < b; [kl l] = sum a_i ln (a_i / b_i)
+    ([ln] of the standard library is 0 at 0, so the terms with a_i = 0 count for 0: dropping them, as the code
+    does with np.where, changes nothing); [coarse groups]: one pair (sum of a, sum of b) per group;
+    [normalise score mi] = score / mi if mi > 0, score otherwise (the code's [normalized=True] branch).
+    [tsd_real degree n G D normalized] is the formula of [tree_sampling_divergence] of Model/Cuts.v on the SAME
+    exact rational terms ([tsd_terms]: the pairs (edge_sampling[t], node_sampling[t]) with edge_sampling[t] <> 0;
+    [mi_terms]: for every stored entry (A_uv / w, w_row[u] w_col[v])), injected into R ([q2]), with the real
+    logarithm in place of the [ln] oracle. *)
+From Coq Require Import Reals.
+From SKN Require Import Proofs.TsdReal.
+Set Warnings "-notation-overridden".
+Open Scope nat_scope.
+
+(** Exact, over Q, no axiom: the two sampling distributions computed by the model of
+    [get_sampling_distributions] are probability vectors (self-loops allowed: they are charged to the first merge
+    of their node, as in the code). *)
+Theorem sampling_distributions_are_probabilities degree n G D :
+  valid n D = true ->
+  (forall e, In e G -> e_src e < n /\ e_dst e < n) ->
+  (forall e, In e G -> (0 <= e_w e)%Q) ->
+  (0 < total_weight G)%Q -> 2 <= n ->
+  exists sd, get_sampling_distributions degree n G D = Ok sd /\ length sd = n - 1 /\
+    (forall x, In x sd -> (0 <= fst (fst x))%Q /\ (0 <= snd (fst x))%Q) /\
+    (sumq (map (fun x => fst (fst x)) sd) == 1)%Q /\ (sumq (map (fun x => snd (fst x)) sd) == 1)%Q.
+Proof. exact (sampling_distributions_probabilities_lemma degree n G D). Qed.
+Print Assumptions sampling_distributions_are_probabilities.
+
+(** Gibbs' inequality: D(p || q) >= 0 as soon as the mass of q does not exceed the mass of p
+    (in particular for two probability vectors), q_i > 0 wherever p_i > 0. *)
+Theorem kl_nonneg (l : list (R * R)) :
+  Forall okpair l -> (mass2 l <= mass1 l)%R -> (0 <= kl l)%R.
+Proof. exact (kl_nonneg_gen l). Qed.
+Print Assumptions kl_nonneg.
+
+(** The log-sum inequality. *)
+Theorem log_sum (l : list (R * R)) :
+  Forall okpair l -> (mass1 l * ln (mass1 l / mass2 l) <= kl l)%R.
+Proof. exact (log_sum_inequality l). Qed.
+Print Assumptions log_sum.
+
+(** Coarse-graining (data processing): the divergence between the images of two distributions under one map
+    is at most the divergence between the distributions. *)
+Theorem kl_coarse_graining (groups : list (list (R * R))) :
+  Forall (Forall okpair) groups -> (kl (coarse groups) <= kl (concat groups))%R.
+Proof. exact (kl_coarse_le groups). Qed.
+Print Assumptions kl_coarse_graining.
+
+(** The tree sampling divergence is non-negative and at most the normaliser used by the code (the mutual
+    information sum_{stored (u,v)} (A_uv / w) ln ((A_uv / w) / (w_row[u] w_col[v])) = divergence between the joint
+    edge distribution and the product of the node distributions): (edge_sampling, node_sampling) are the images
+    of these two pair-level distributions under (u, v) |-> the merge at which u and v meet.
+    Graph: COO triples without repeated (u, v), endpoints in range, non-negative weights, positive total weight
+    (self-loops allowed); D any valid dendrogram; weights = 'degree' or 'uniform'. *)
+Theorem tsd_nonneg degree n G D :
+  valid n D = true ->
+  (forall e, In e G -> e_src e < n /\ e_dst e < n) ->
+  (forall e, In e G -> (0 <= e_w e)%Q) ->
+  (0 < total_weight G)%Q -> 2 <= n -> NoDup (map fst G) -> G <> [] ->
+  exists s, tsd_real degree n G D false = Ok s /\ (0 <= s <= kl (map q2 (mi_terms degree n G)))%R.
+Proof. exact (tsd_nonneg_lemma degree n G D). Qed.
+Print Assumptions tsd_nonneg.
+
+(** The normalised tree sampling divergence lies in [0, 1]. *)
+Theorem tsd_normalized_le_one degree n G D :
+  valid n D = true ->
+  (forall e, In e G -> e_src e < n /\ e_dst e < n) ->
+  (forall e, In e G -> (0 <= e_w e)%Q) ->
+  (0 < total_weight G)%Q -> 2 <= n -> NoDup (map fst G) -> G <> [] ->
+  exists s, tsd_real degree n G D true = Ok s /\ (0 <= s <= 1)%R.
+Proof. exact (tsd_normalized_unit_lemma degree n G D). Qed.
+Print Assumptions tsd_normalized_le_one.
+
+(** Link with the rational model and its oracle.  (a) If the oracle is within eps of the real logarithm on the
+    ratios it is applied to, the unnormalised score of the model is within eps of [tsd_real] (hence >= -eps). *)
+Theorem tsd_model_within_eps degree n G D (lnq : Q -> Q) (eps : R) s :
+  valid n D = true ->
+  (forall e, In e G -> e_src e < n /\ e_dst e < n) ->
+  (forall e, In e G -> (0 <= e_w e)%Q) ->
+  (0 < total_weight G)%Q -> 2 <= n -> G <> [] ->
+  (forall ts x, tsd_terms degree n G D = Ok ts -> In x ts ->
+     (Rabs (Q2R (lnq (fst x / snd x)%Q) - ln (Q2R (fst x) / Q2R (snd x))) <= eps)%R) ->
+  tree_sampling_divergence lnq degree n G D false = Ok s ->
+  exists sr, tsd_real degree n G D false = Ok sr /\ (Rabs (Q2R s - sr) <= eps)%R.
+Proof.
+  exact (fun Hv HG Hpos Hw Hn HGne => tsd_model_within_eps_lemma degree n G D Hv HG Hpos Hw Hn lnq eps s HGne).
+Qed.
+Print Assumptions tsd_model_within_eps.
+
+(** (b) Shape only: with an idealised oracle equal to [ln] on every ratio it is applied to, the model returns
+    exactly [tsd_real], normalised or not ([tsd_real] is the model's formula term for term; no rational-valued
+    oracle meets this hypothesis except on ratios equal to 1). *)
+Theorem tsd_real_is_model_formula (lnq : Q -> Q) degree n G D normalized s :
+  (forall ts x, tsd_terms degree n G D = Ok ts -> In x (ts ++ mi_terms degree n G) ->
+     Q2R (lnq (fst x / snd x)%Q) = ln (Q2R (fst x) / Q2R (snd x))) ->
+  tree_sampling_divergence lnq degree n G D normalized = Ok s ->
+  tsd_real degree n G D normalized = Ok (Q2R s).
+Proof. exact (tsd_real_of_exact_oracle_lemma lnq degree n G D normalized s). Qed.
+Print Assumptions tsd_real_is_model_formula.
+
+(** Non-vacuity: the hypotheses of [tsd_normalized_le_one] hold for a weighted graph with a self-loop and a
+    5-leaf dendrogram; three of the four merges carry positive edge-sampling probability (the term of the merge
+    (5, 4), which no edge crosses, is dropped, as by np.where in the code). *)
+Example c08_tsd_nonvacuous :
+  let D := [(0, 1, 2%Q, 2); (2, 3, 1%Q, 2); (5, 4, 3%Q, 3); (6, 7, 4%Q, 5)] in
+  let G := [(0, 1, 1%Q); (1, 0, 1%Q); (1, 2, 2%Q); (2, 1, 2%Q); (0, 3, 1%Q); (3, 0, 1%Q); (3, 4, 3%Q); (4, 3, 3%Q);
+            (2, 2, 1%Q)] in
+  valid 5 D = true /\
+  (forall e, In e G -> e_src e < 5 /\ e_dst e < 5) /\ (forall e, In e G -> (0 <= e_w e)%Q) /\
+  (0 < total_weight G)%Q /\ NoDup (map fst G) /\ G <> [] /\
+  (exists ts, tsd_terms true 5 G D = Ok ts /\ length ts = 3) /\
+  (exists ts, tsd_terms false 5 G D = Ok ts /\ length ts = 3).
+Proof.
+  cbv zeta. split; [vm_compute; reflexivity|].
+  split; [intros e H; cbn [In] in H; repeat (destruct H as [<-|H]; [vm_compute; split; lia|]); destruct H|].
+  split; [intros e H; cbn [In] in H; repeat (destruct H as [<-|H]; [vm_compute; discriminate|]); destruct H|].
+  split; [vm_compute; reflexivity|].
+  split; [cbn [map fst]; repeat (constructor; [cbn [In]; intros H; repeat (destruct H as [H|H]; [discriminate|]); destruct H|]); constructor|].
+  split; [discriminate|].
+  split; eexists; (split; [vm_compute; reflexivity | reflexivity]).
+Qed.
